@@ -19,6 +19,7 @@ import (
 	"encoding/json"
 	"fmt"
 	"math/rand"
+	"os"
 	"strings"
 	"sync"
 	"time"
@@ -264,6 +265,63 @@ func extras(env *fw.Env) []json.RawMessage {
 			add(scriptSpec{Kind: "bfree", Via: via, ShA: sh[0], ShB: sh[1], Ops: []sop{F(13), E("A", "halfclose"), F(13), E("B", "close")}})
 		}
 	}
+	// ... for longer than any plausible "drain" / lifetime deadline (5.5 minutes of scripted time, traffic
+	// every second), with a read-, write- or both-ways deadline-capable conn on either side
+	for i, sh := range [][2]string{{"direct-cw", "direct-cw"}, {"direct-closer", "same-closer"}, {"direct-cw", "direct-closer"}} {
+		via := []string{"direct", "tunnel"}[i%2]
+		add(scriptSpec{Kind: "bfree", Via: via, ShA: sh[0], ShB: sh[1], Sc: "longFlow", Ops: []sop{S("A", 500), S("B", 500), W, E("B", "halfclose"), W, F(330), E("A", "halfclose")}})
+		add(scriptSpec{Kind: "bfree", Via: via, ShA: sh[0], ShB: sh[1], Sc: "longFlow", Ops: []sop{S("A", 500), W, E("A", "halfclose"), W, F(330), E("B", "halfclose")}})
+		add(scriptSpec{Kind: "bfree", Via: via, ShA: sh[0], ShB: sh[1], Sc: "longFlow", Ops: []sop{F(330), E("A", "halfclose"), F(20), E("B", "close")}})
+	}
+	// the idle monitor of tunnel.Tunnel (REAL time): traffic every gap for 2.5 idle timeouts - in both
+	// directions, only local -> tunnel (tunnel Writes), only tunnel -> local (tunnel Reads).  With the
+	// IdleTimeout field of patch C12-4 the timeout is 2 s; without it the code's own 5 minutes are waited
+	// for (thorough tier only).
+	R := func(n int) sop { return sop{Op: "rflow", N: n} }
+	monitor := func(idleMs, gapMs, steps int) {
+		for i, sh := range [][2]string{{"direct-cw", "same-closer"}, {"direct-cw", "split-cw"}, {"direct-closer", "direct-cw"}} {
+			if idleMs == 0 && i > 0 {
+				break
+			}
+			add(scriptSpec{Kind: "bfree", Via: "tunnel", ShA: sh[0], ShB: sh[1], IdleMs: idleMs, GapMs: gapMs, Sc: "idleMonitor", Ops: []sop{S("A", 500), S("B", 500), W, R(steps), E("A", "halfclose"), E("B", "halfclose")}})
+			add(scriptSpec{Kind: "bfree", Via: "tunnel", ShA: sh[0], ShB: sh[1], IdleMs: idleMs, GapMs: gapMs, Sc: "idleMonitor", Ops: []sop{S("A", 500), S("B", 500), W, E("B", "halfclose"), W, R(steps), E("A", "halfclose")}})
+			add(scriptSpec{Kind: "bfree", Via: "tunnel", ShA: sh[0], ShB: sh[1], IdleMs: idleMs, GapMs: gapMs, Sc: "idleMonitor", Ops: []sop{E("A", "halfclose"), W, R(steps), E("B", "close")}})
+		}
+		add(scriptSpec{Kind: "tcp", Via: "tunnel", Pipe: true, IdleMs: idleMs, GapMs: gapMs, Sc: "idleMonitor", Ops: []sop{S("A", 3000), S("B", 500), W, R(steps), E("A", "halfclose"), W, E("B", "close")}})
+		// UDP: one datagram per step and direction; the datagram index must fit one byte
+		if steps > 245 {
+			gapMs = gapMs*steps/245 + 1
+			steps = 245
+		}
+		var t, u []int
+		tot := 0
+		for i := 0; i < steps; i++ {
+			t = append(t, []int{100, 2, 1400}[i%3])
+			u = append(u, []int{64, 1200, 3}[i%3])
+			tot += 2 + t[i]
+		}
+		u = append([]int{33}, u...)
+		for _, sock := range []string{"fake", "vconn", "real"} {
+			if idleMs == 0 && sock != "fake" {
+				break
+			}
+			add(udpSpec{Kind: "udp", Via: "tunnel", Sock: sock, T: t, U: u, Cut: tot, How: "eof", Pace: "burst", Bounds: []int{tot},
+				Flow: steps, FlowU: steps, GapMs: gapMs, IdleMs: idleMs, Sc: "idleMonitor"})
+		}
+	}
+	if idleConfigurable() {
+		monitor(2000, 200, 25)
+	} else if env.Tier == "thorough" {
+		monitor(0, 1000, 312)
+	}
+	// real time on real loopback TCP (a deadline reachable only through the concrete *net.TCPConn): 12 s
+	// with traffic every second after one side has half-closed
+	if env.Tier == "thorough" {
+		add(scriptSpec{Kind: "tcp", Via: "direct", GapMs: 1000, Sc: "realTime", Ops: []sop{S("A", 3000), S("B", 500), W, E("B", "halfclose"), W, R(12), E("A", "halfclose")}})
+		add(scriptSpec{Kind: "tcp", Via: "direct", GapMs: 1000, Sc: "realTime", Ops: []sop{S("A", 3000), W, E("A", "halfclose"), W, R(12), E("B", "halfclose")}})
+		// (a net.Pipe end cannot half-close: the tunnel peer keeps sending and closes at the end)
+		add(scriptSpec{Kind: "tcp", Via: "direct", Pipe: true, GapMs: 1000, Sc: "realTime", Ops: []sop{S("A", 3000), S("B", 500), W, E("A", "halfclose"), W, R(12), W, E("B", "close")}})
+	}
 	// a net.Pipe tunnel (no CloseWrite, is a Closer) behind the real adapter, local side real TCP:
 	// the local application half-closes first, the tunnel peer answers afterwards
 	for _, via := range []string{"direct", "tunnel"} {
@@ -323,6 +381,30 @@ func extras(env *fw.Env) []json.RawMessage {
 		add(udpSpec{Kind: "udp", Via: "direct", Sock: "fake", T: many, Cut: manyLen - 100, How: how, Pace: "burst", Bounds: []int{manyLen - 100}})
 		add(udpSpec{Kind: "udp", Via: "tunnel", Sock: "fake", T: big, U: []int{65535, 65535, 65535}, Cut: bigLen, How: how, Pace: "burst", Bounds: []int{bigLen}})
 		add(udpSpec{Kind: "udp", Via: "direct", Sock: "fake", T: big, Cut: bigLen - 7, How: how, Pace: "burst", Bounds: []int{300000, bigLen - 7}})
+	}
+	// time passes (scripted clock: deadline-capable scripted socket / tunnel conn) while both directions
+	// keep exchanging one datagram per second: nothing may be lost, the relay may not give up
+	for _, n := range []int{15, 240} {
+		stepS := 1
+		if n > 15 {
+			stepS = 2 // 8 minutes of scripted time
+		}
+		var t, u []int
+		tot := 0
+		for i := 0; i < n; i++ {
+			t = append(t, []int{100, 2, 255, 1}[i%4])
+			u = append(u, []int{64, 255, 3}[i%3])
+			tot += 2 + t[i]
+		}
+		u = append([]int{33}, u...)
+		for _, via := range []string{"direct", "tunnel"} {
+			add(udpSpec{Kind: "udp", Via: via, Sock: "fake", T: t, U: u, Cut: tot, How: "eof", Pace: "burst", Bounds: []int{tot}, Flow: n, FlowU: n, StepS: stepS, Sc: "flow"})
+			add(udpSpec{Kind: "udp", Via: via, Sock: "fake", T: t, U: u, Cut: tot - 1, How: "err", Pace: "burst", Bounds: []int{tot - 1}, Flow: n, FlowU: n, StepS: stepS, Sc: "flow"})
+		}
+		if n == 15 {
+			add(udpSpec{Kind: "udp", Via: "direct", Sock: "vconn", T: t, U: u, Cut: tot, How: "eof", Pace: "burst", Bounds: []int{tot}, Flow: n, FlowU: n, StepS: stepS, Sc: "flow"})
+			add(udpSpec{Kind: "udp", Via: "tunnel", Sock: "real", T: t, U: u, Cut: tot, How: "eof", Pace: "burst", Bounds: []int{tot}, Flow: n, FlowU: n, StepS: stepS, Sc: "flow"})
+		}
 	}
 	// slow tunnel Writes while more datagrams arrive (ticker path, more-than-half path, batch-full
 	// path after transient write failures) and a slow UDP socket write while more stream is there
@@ -423,7 +505,15 @@ func udpConstsA(tseqs, useqs string, maxt, maxu int, batch int, devSpin, devNoUn
 		"SOCKQ": "FALSE", "QREFS": "FALSE", "DROP": "FALSE", "SOCKB": "FALSE", "NOINNER": "FALSE"}
 }
 
+// devExtrasOnly (VERIF_C12_DEV=extras): development aid - no TLC model/generation jobs, only the
+// driver-made behaviours are driven and judged. Not for verdicts that are recorded.
+func devExtrasOnly() bool { return os.Getenv("VERIF_C12_DEV") == "extras" }
+
 func modelJobs(env *fw.Env) []fw.TLCJob {
+	if devExtrasOnly() {
+		fmt.Println("[dev] VERIF_C12_DEV=extras: model and generation jobs skipped")
+		return nil
+	}
 	startBackground(env)
 	udp := func(name string, c map[string]string) fw.TLCJob {
 		return fw.TLCJob{Name: name, Module: "Relay", Cfg: "Relay_udp_tmpl.cfg", Consts: c, Workers: 8, Timeout: 20 * time.Minute}
@@ -444,7 +534,7 @@ func modelJobs(env *fw.Env) []fw.TLCJob {
 		}
 	}
 	return []fw.TLCJob{
-		{Name: "bidi:MaxSend=2:safety+liveness", Module: "Relay", Cfg: "Relay_bidi_thorough.cfg", Workers: 8},
+		{Name: "bidi:MaxSend=2:safety+liveness", Module: "Relay", Cfg: "Relay_bidi_thorough.cfg", Workers: 8, Timeout: 40 * time.Minute},
 		{Name: "udp:patched(default cfg):T<=2xUSmall:strict-liveness", Module: "Relay", Cfg: "Relay_udp.cfg", Workers: 8},
 		udp("udp:patched:T<=3xUSmall:strict-liveness", udpConsts("TAll", "USmall", 3, 1, 32, false, false, "UTermination")),
 		udp("udp:patched:TSmallxU<=2:strict-liveness", udpConsts("TSmall", "UAll", 1, 2, 32, false, false, "UTermination")),
@@ -497,9 +587,19 @@ func startBackground(env *fw.Env) {
 	cfb.expect = []string{"Invariant BReverseKeepsFlowing is violated"}
 	bgRuns = append(bgRuns, alias, qrefs, cfb,
 		mk("udp:virtual conn(vconn cfg):write queue + writeLoop, copies, drained after close", "Relay_udp_vconn.cfg", nil, false))
-	dlr := mk("bidi:seeded-fault(deadline cfg):absolute read deadline on the surviving direction", "Relay_bidi_deadline.cfg", nil, true)
+	dlr := mk("bidi:seeded-fault(show_deadline cfg):absolute read deadline on the surviving direction", "Relay_bidi_show_deadline.cfg", nil, true)
 	dlr.expect = []string{"Invariant BNoSpuriousEnd is violated", "Invariant BNoDeadline is violated"}
-	nif := mk("udp:seeded-fault(noinnerflush cfg):no flush inside the unpack loop, batch writer with BatchSize slots", "Relay_udp_noinnerflush.cfg", nil, true)
+	wdl := mk("bidi:deviation(show_wdeadline cfg):absolute write deadline on the surviving direction", "Relay_bidi_show_wdeadline.cfg", nil, true)
+	wdl.expect = []string{"Invariant BNoSpuriousWriteEnd is violated"}
+	sdl := mk("bidi:deviation(show_startdeadline cfg):lifetime deadline set when the relay starts", "Relay_bidi_show_startdeadline.cfg", nil, true)
+	sdl.expect = []string{"Invariant BNoSpuriousEnd is violated", "Invariant BNoSpuriousWriteEnd is violated"}
+	mnf := mk("bidi:as-found(show_monnofeed cfg):tunnel idle monitor never told about traffic", "Relay_bidi_show_monnofeed.cfg", nil, true)
+	mnf.expect = []string{"Invariant BMonitorOnlyIdle is violated"}
+	usd := mk("udp:deviation(show_sockdeadline cfg):absolute read deadline on the UDP socket", "Relay_udp_show_sockdeadline.cfg", nil, true)
+	usd.expect = []string{"Invariant UNoSpuriousEnd is violated"}
+	bgRuns = append(bgRuns, wdl, sdl, mnf, usd,
+		mk("bidi:tunnel idle monitor(monitor cfg):closes only after IdleMax ticks without data movement", "Relay_bidi_monitor.cfg", nil, false))
+	nif := mk("udp:seeded-fault(show_noinnerflush cfg):no flush inside the unpack loop, batch writer with BatchSize slots", "Relay_udp_show_noinnerflush.cfg", nil, true)
 	nif.expect = []string{"Invariant UBatchFits is violated", "Invariant UCompleteAny is violated", "Invariant UComplete is violated"}
 	bgRuns = append(bgRuns, dlr, nif,
 		mk("udp:real socket(batch cfg):udpBatchWriter with BatchSize=2 slots, flush inside the unpack loop", "Relay_udp_batch.cfg", nil, false))
@@ -509,7 +609,7 @@ func startBackground(env *fw.Env) {
 	if env.Tier == "thorough" {
 		bgRuns = append(bgRuns, mk("udp:as-found(droponclose cfg):complete modulo the named deviation", "Relay_udp_droponclose.cfg", nil, false))
 	}
-	lanes := make(chan struct{}, 3) // at most three background JVMs at a time
+	lanes := make(chan struct{}, 4) // at most four background JVMs at a time
 	for _, r := range bgRuns {
 		bgWG.Add(1)
 		go func(r *bgRun) {
@@ -554,6 +654,9 @@ func tailStr(s string, n int) string {
 }
 
 func genJobs(env *fw.Env) []fw.TLCJob {
+	if devExtrasOnly() {
+		return nil
+	}
 	mt, mu := "3", "3"
 	if env.Tier == "quick" {
 		mt, mu = "2", "2"
@@ -697,7 +800,7 @@ func selfTest(env *fw.Env, accepted []*fw.Trace) []*fw.Trace {
 }
 
 func postDrive(env *fw.Env, traces []*fw.Trace) error {
-	replay := bgRuns == nil // ModelJobs is not called for --replay
+	replay := bgRuns == nil || devExtrasOnly() // ModelJobs is not called for --replay
 	if err := joinBackground(); err != nil {
 		return err
 	}
